@@ -113,14 +113,27 @@ func (v *View) checkC01(res *Result) {
 				continue
 			}
 			// the Delete belongs to the shutdown in which it was ISSUED (it may be applied
-			// after a StopWithContext that ran into its time-out has already returned)
+			// after a StopWithContext that ran into its time-out has already returned) - or, if
+			// the releasing goroutine first read the record (the store call immediately before
+			// this Delete on the same goroutine), in which that read was issued: a stop call that
+			// gives up while the read is still out returns before the Delete is issued
 			inStop := false
 			issue := m.Seq
 			if c := v.Calls[m.Call]; c != nil {
 				issue = c.Issue
 			}
+			var prevCall *StoreCall
+			for _, c := range v.CallsL {
+				if c.Inst == m.By && c.G == m.G && c.Issue < issue && c.Call != m.Call {
+					prevCall = c
+				}
+			}
+			began := issue
+			if prevCall != nil && prevCall.Op == "Get" {
+				began = prevCall.Issue
+			}
 			for _, a := range v.APIs {
-				if a.Inst == m.By && a.API == "StopWithContext" && a.DelKey && a.Call < issue && (a.Ret < 0 || a.Ret > issue) {
+				if a.Inst == m.By && a.API == "StopWithContext" && a.DelKey && a.Call < began && (a.Ret < 0 || a.Ret > began) {
 					inStop = true
 				}
 			}
@@ -129,12 +142,6 @@ func (v *View) checkC01(res *Result) {
 				// (the store call IMMEDIATELY before this Delete on the same goroutine: a
 				// second Delete after a failed one has no read of its own)
 				how := "blind"
-				var prevCall *StoreCall
-				for _, c := range v.CallsL {
-					if c.Inst == m.By && c.G == m.G && c.Issue < issue && c.Call != m.Call {
-						prevCall = c
-					}
-				}
 				if prevCall != nil && prevCall.Op == "Get" && prevCall.Apply >= 0 && prevCall.OK {
 					if id, _, _ := DecodeIDToken([]byte(prevCall.Val)); id == m.By {
 						how = "after-own-read"
@@ -667,8 +674,14 @@ func (v *View) checkC18(res *Result) {
 			// time-out (a late ack is a failed heartbeat from the instance's point of view)
 			if c := v.Calls[e.Call]; c != nil && e.OK && (e.Op == "Create" || e.Op == "Update") && c.Apply >= 0 && c.OK {
 				is := v.instSpec(e.Inst)
-				if (e.Op == "Create" || is == nil || c.ReturnVT-c.IssueVT <= opTimeout(is.H)) && c.Rev > lastOwnRev[e.Inst] {
-					lastOwnRev[e.Inst] = c.Rev // revisions are monotonic: a late ack of an older write does not count
+				// ("its latest successful write" is the leader's, i.e. the running term's: the
+				// writes are kept per token. A term that begins late - its acquisition finished
+				// long ago, another term of the same instance came and went in between - shows the
+				// revision of ITS record, not of the other term's.)
+				_, wtok, _ := DecodeIDToken([]byte(c.ReqVal))
+				key := e.Inst + "|" + wtok
+				if (e.Op == "Create" || is == nil || c.ReturnVT-c.IssueVT <= opTimeout(is.H)) && c.Rev > lastOwnRev[key] {
+					lastOwnRev[key] = c.Rev // revisions are monotonic: a late ack of an older write does not count
 				}
 			}
 		case "transition":
@@ -719,8 +732,8 @@ func (v *View) checkC18(res *Result) {
 				if t != nil && sn.Token != t.Token {
 					res.viol("C18", "leader-token", "leader-snapshot-token", fmt.Sprintf("leader %s Status().Token=%s term=%s", e.Inst, sn.Token, t.Token), idx)
 				}
-				if !inflightWrite(e.Inst, idx) && lastOwnRev[e.Inst] != 0 && sn.Revision != lastOwnRev[e.Inst] {
-					res.viol("C18", "leader-revision", "leader-snapshot-revision", fmt.Sprintf("leader %s Status().Revision=%d latest successful write=%d", e.Inst, sn.Revision, lastOwnRev[e.Inst]), idx)
+				if lr := lastOwnRev[e.Inst+"|"+sn.Token]; !inflightWrite(e.Inst, idx) && lr != 0 && sn.Revision != lr {
+					res.viol("C18", "leader-revision", "leader-snapshot-revision", fmt.Sprintf("leader %s Status().Revision=%d latest successful write of the term=%d", e.Inst, sn.Revision, lr), idx)
 				}
 				res.Obs["c18.leader_snapshots"]++
 			}
@@ -850,9 +863,9 @@ func (v *View) checkC19(res *Result) {
 		if e.Kind != "ctx.state" || idx >= v.EndSeq {
 			continue
 		}
-		if v.heldAt(e.Inst, e.VT) {
+		if v.heldAt(e.Inst, e.VT) || v.heldAtSeq(e.Inst, idx) {
 			// the library is stopped inside a call into user code of this instance (held by the
-			// harness for a stretch of virtual time), possibly between cancelling the term context
+			// harness for a stretch of virtual time, or of real time only), possibly between cancelling the term context
 			// and publishing the end of the term: not judged
 			continue
 		}
